@@ -180,6 +180,15 @@ func (a *dataSetAof) Close() {
 	}
 }
 
+func (a *dataSetAof) CloseReaders() {
+	a.mux.Lock()
+	readers := append([]*AofRotateReader(nil), a.readers...)
+	a.mux.Unlock()
+	for _, r := range readers {
+		r.Close()
+	}
+}
+
 func (a *dataSetAof) CloseWriter() {
 	if a.rwRef.Load() == 0 { //fast path
 		return
@@ -352,17 +361,25 @@ func (ds *dataSet) FindAof(left int64) *dataSetAof {
 
 func (ds *dataSet) trimLastEmptyAof() {
 	ds.mux.Lock()
-	defer ds.mux.Unlock()
-
 	if len(ds.aofSegs) == 0 {
+		ds.mux.Unlock()
 		return
 	}
 
+	var trimmed *dataSetAof
 	aofLast := len(ds.aofSegs) - 1
 	lastAof := ds.aofSegs[aofLast]
 	if lastAof.rtSize.Load() == 0 {
 		delete(ds.aofMap, lastAof.Left())
 		ds.aofSegs = ds.aofSegs[:aofLast]
+		trimmed = lastAof
+	}
+	ds.mux.Unlock()
+
+	// readers waiting at the end of the trimmed segment are unknown to the dataset from now on
+	// and its file is removed : end them, nothing would ever close them or feed them again
+	if trimmed != nil {
+		trimmed.CloseReaders()
 	}
 }
 
